@@ -50,6 +50,9 @@ m("c08_send_le_capacity", ["C08", "C18", "C03"], "src/lib.rs",
 m("c08_unbounded_try_send_refuses_at_40", ["C08", "C01"], "src/lib.rs",
   "                unsafe { first.send(data) }\n                return Ok(true);\n            } else if internal.queue.len() < internal.capacity {\n                internal.queue.push_back(data);\n                return Ok(true);\n            }\n            Ok(false)\n        }\n\n        /// Tries sending to the channel without waiting on the waitlist, if\n        /// send fails then the object will be dropped. It returns `Ok(true)` in\n        /// case of a successful operation and `Ok(false)` for a failed one, or\n        /// error in case that channel is closed. Important note: this function\n        /// is not lock-free as it acquires a mutex guard of the channel\n        /// internal for a short time.\n        ///\n        /// # Examples\n        ///\n        /// ```\n        /// # use std::thread::spawn;\n        /// let (s, r) = kanal::bounded(0);\n        /// let t=spawn( move || {\n        ///     let mut opt=Some(1);",
   "                unsafe { first.send(data) }\n                return Ok(true);\n            } else if internal.queue.len() < internal.capacity && internal.queue.len() != 40 {\n                internal.queue.push_back(data);\n                return Ok(true);\n            }\n            Ok(false)\n        }\n\n        /// Tries sending to the channel without waiting on the waitlist, if\n        /// send fails then the object will be dropped. It returns `Ok(true)` in\n        /// case of a successful operation and `Ok(false)` for a failed one, or\n        /// error in case that channel is closed. Important note: this function\n        /// is not lock-free as it acquires a mutex guard of the channel\n        /// internal for a short time.\n        ///\n        /// # Examples\n        ///\n        /// ```\n        /// # use std::thread::spawn;\n        /// let (s, r) = kanal::bounded(0);\n        /// let t=spawn( move || {\n        ///     let mut opt=Some(1);")
+m("c08_try_send_refuses_one_early", ["C08", "C18"], "src/lib.rs",
+  "                unsafe { first.send(data) }\n                return Ok(true);\n            } else if internal.queue.len() < internal.capacity {\n                internal.queue.push_back(data);\n                return Ok(true);\n            }\n            Ok(false)\n        }\n\n        /// Tries sending to the channel without waiting on the waitlist, if\n        /// send fails then the object will be dropped. It returns `Ok(true)` in\n        /// case of a successful operation and `Ok(false)` for a failed one, or\n        /// error in case that channel is closed. Important note: this function\n        /// is not lock-free as it acquires a mutex guard of the channel\n        /// internal for a short time.\n        ///\n        /// # Examples\n        ///\n        /// ```\n        /// # use std::thread::spawn;\n        /// let (s, r) = kanal::bounded(0);\n        /// let t=spawn( move || {\n        ///     let mut opt=Some(1);",
+  "                unsafe { first.send(data) }\n                return Ok(true);\n            } else if internal.queue.len() < internal.capacity && (internal.capacity < 2 || internal.capacity == usize::MAX || internal.queue.len() + 1 < internal.capacity) {\n                internal.queue.push_back(data);\n                return Ok(true);\n            }\n            Ok(false)\n        }\n\n        /// Tries sending to the channel without waiting on the waitlist, if\n        /// send fails then the object will be dropped. It returns `Ok(true)` in\n        /// case of a successful operation and `Ok(false)` for a failed one, or\n        /// error in case that channel is closed. Important note: this function\n        /// is not lock-free as it acquires a mutex guard of the channel\n        /// internal for a short time.\n        ///\n        /// # Examples\n        ///\n        /// ```\n        /// # use std::thread::spawn;\n        /// let (s, r) = kanal::bounded(0);\n        /// let t=spawn( move || {\n        ///     let mut opt=Some(1);")
 m("c09_clone_async_no_count", ["C09", "C12", "C18"], "src/lib.rs",
   "    pub fn clone_async(&self) -> AsyncSender<T> {\n        let mut internal = acquire_internal(&self.internal);\n        if internal.send_count > 0 {\n            internal.send_count += 1;\n        }",
   "    pub fn clone_async(&self) -> AsyncSender<T> {\n        let mut internal = acquire_internal(&self.internal);\n        if internal.send_count > 1 {\n            internal.send_count += 1;\n        }")
